@@ -385,6 +385,22 @@ def main():
     c5, f5 = solve_request(5)
     if max(rel(c1, c5), rel(f1, f5)) > 1e-5:
         chk.violation("single and double precision differ by %.3e of the field maximum" % max(rel(c1, c5), rel(f1, f5)), {"kind": "precision"}, klass={"check": "precision"})
+    # ... also for several output levels on grids that are fine against the output height (the shooting sweep grows by
+    # exp(k h) there: whatever is rounded to single precision before the two auxiliary solutions are combined is amplified)
+    from bldfm.solver import steady_state_transport_solver as _steady
+
+    for rid in (8, 9, 10):
+        qsd, kwsd = build_request(rid)
+        outs = {}
+        for prec in ("single", "double"):
+            k = dict(kwsd, precision=prec)
+            _, c_, f_ = _steady(qsd, k.pop("z"), k.pop("profiles"), k.pop("domain"), k.pop("levels"), **k)
+            outs[prec] = (np.asarray(c_, dtype=float), np.asarray(f_, dtype=float))
+            nsolves += 1
+        d = max(rel(outs["single"][0], outs["double"][0]), rel(outs["single"][1], outs["double"][1]))
+        chk.case(json.dumps(["single vs double", rid]))
+        if not d <= 1e-5:
+            chk.violation("request %d (levels %s) in single and in double precision differ by %.3e of the field maximum" % (rid, [int(v_) for v_ in np.atleast_1d(kwsd["levels"])], d), {"kind": "precision", "request": rid}, klass={"check": "precision", "request": rid})
     # long random histories, multi-threaded schedules repeated
     rng = np.random.default_rng(seed())
     nlong = 150 if t == "quick" else 1500
